@@ -15,7 +15,7 @@ Not decided: determinism of user callbacks and of toml's formatter (a pure funct
 """
 import re
 from .lib import serde_schema as S
-from .lib.effects import Effects
+from .lib.effects import Effects, MUTATING
 from .lib.value import vstr, walk
 from . import C12
 
@@ -30,12 +30,71 @@ TRIAGED = {
     'libcnb::layer::shared::replace_layer_exec_d_programs': 'exec.d programs: each element is copied to its own file exec.d/<key>',
     'libcnb::env::Env::iter': 'in-memory API handed to the buildpack author; nothing is written by libcnb from it',
 }
-# the iteration constructs that were triaged per function (a further construct needs a new triage)
-TRIAGED_KINDS = {
-    'libcnb::layer_env::LayerEnv::write_to_layer_dir': ['into_iter@IntoIterator>', 'next@Iterator>'],
-    'libcnb::layer::shared::replace_layer_exec_d_programs': ['into_iter@IntoIterator>', 'next@Iterator>'],
-    'libcnb::env::Env::iter': ['iter@'],
+# what was triaged per function is *which* hash container is iterated (not how the loop is spelled): a predicate
+# on the symbolic source of the iteration, in the function's own terms
+def _self_field(name):
+    return lambda f, v: v[0] == 'field' and v[2] == name and v[1][0] == 'param' and v[1][2] == 0
+
+
+TRIAGED_SOURCE = {
+    'libcnb::layer_env::LayerEnv::write_to_layer_dir': ('self.process', _self_field('process')),
+    'libcnb::layer::shared::replace_layer_exec_d_programs': ('the exec_d_programs parameter', lambda f, v: v[0] == 'param' and v[2] == 2),
+    'libcnb::env::Env::iter': ('self.inner', _self_field('inner')),
 }
+
+
+def _uses_whole(f, v, pred, depth=0):
+    """does value v depend on the container (pred) other than through single elements `next(container)`"""
+    from .lib.paths import strip
+    if not isinstance(v, tuple) or not v or depth > 40:
+        return False
+    if v[0] == 'call' and v[1] == 'std::iter::Iterator::next' and v[2]:
+        src = v[2][0]
+        for _ in range(8):
+            src = strip(src)
+            if pred(f, src):
+                return False
+            if src[0] == 'call' and src[2] and not src[1].startswith('std::iter::Iterator::collect'):
+                src = src[2][0]
+                continue
+            break
+    if v[0] in ('field', 'param') and pred(f, strip(v)):
+        return True
+    return any(_uses_whole(f, x, pred, depth + 1) for x in v if isinstance(x, tuple))
+
+
+def iteration_sources(sl, f, c):
+    """the collections behind an iteration call (adapters, borrows and `.iter()` peeled; `chain` gives both sides;
+    literal arrays / once(..) are ordered by construction and are left out)"""
+    from .lib import iters
+    from .lib.paths import strip
+    if not c.args:
+        return [('unknown', 'no receiver')]
+    out = []
+    work = [strip(sl.operand(f, c.args[0]))]
+    n = 0
+    while work and n < 40:
+        n += 1
+        v = strip(work.pop())
+        if v[0] in ('array', 'tuple'):
+            continue
+        if v[0] == 'phi':
+            work.extend(v[1])
+            continue
+        if v[0] == 'call' and v[2]:
+            if v[1] == iters.IT + 'chain' and len(v[2]) == 2:
+                work.extend(v[2])
+                continue
+            if v[1] == 'std::iter::once':
+                continue
+            if v[1] in iters.SAME or v[1] in iters.FEWER or v[1] in iters.LAZY_WITH_CLOSURE or iters._is_source(v[1]) \
+                    or v[1] == iters.IT + 'enumerate' or v[1] in iters.COLLECTING:
+                work.append(v[2][0])
+                continue
+        out.append(v)
+    return out
+
+
 NONDET_NAMES = {'std::time::SystemTime::now', 'std::time::Instant::now', 'std::process::id', 'std::env::temp_dir', 'std::thread::current',
                 'fastrand::u64', 'fastrand::lowercase', 'fastrand::alphanumeric', 'rand::random', 'rand::thread_rng', 'rand::rng'}
 ENV_NAMES = {'std::env::var', 'std::env::var_os', 'std::env::vars', 'std::env::vars_os', 'std::env::current_dir', 'std::env::args', 'std::env::args_os', 'std::env::current_exe'}
@@ -96,12 +155,13 @@ def run(ctx, rep):
         rep.analysed(prog.fns[fp])
         tfp = alias.get(fp, fp)
         reason = TRIAGED.get(tfp)
-        kinds = sorted({(c.name or '').split('::')[-1] + ('@' + re.sub(r'<.*', '', (c.name or '').split('::')[-2]) if '::' in (c.name or '') else '') for c in cs})
-        if reason and kinds == TRIAGED_KINDS.get(tfp):
-            rep.holds('R2', fp, cs[0].where(), 'hash iteration triaged: ' + reason)
-        elif reason:
-            rep.violated('R2', fp + '/new-iteration', cs[0].where(), 'a triaged function iterates a hash container in a new way (%s, triaged: %s): re-triage whether the order can reach output bytes'
-                         % (kinds, TRIAGED_KINDS.get(fp)))
+        if reason:
+            what, pred = TRIAGED_SOURCE[tfp]
+            top = prog.fns[fp]
+            srcs = [v for c in cs for v in iteration_sources(sl, top, c)]
+            bad = [vstr(v)[:60] for v in srcs if not pred(top, v)]
+            rep.check(not bad, 'R2', fp if not bad else fp + '/new-iteration', cs[0].where(), 'hash iteration over %s only — triaged: %s' % (what, reason),
+                      'a triaged function iterates a further hash container (%s; triaged: %s): re-triage whether its order can reach output bytes' % (bad, what))
         else:
             rep.violated('R2', fp, cs[0].where(), 'untriaged iteration over a hash-ordered container (%s): if its order can reach the bytes of an output file, '
                          'two runs on identical inputs differ' % sorted({c.name for c in cs}))
@@ -122,6 +182,20 @@ def run(ctx, rep):
         dv = sl.operand(g, c.args[1])
         ok = any(x[0] == 'call' and x[1] == 'std::iter::Iterator::next' for x in walk(dv)) and any(x == ('const', 'exec.d') for x in walk(dv))
     rep.check(ok, 'R2', 'triage-basis/exec-d', '%s:%d' % (rx.file, rx.line), 'each exec.d program goes to its own file exec.d/<key>', 'exec.d programs are no longer written one file per key')
+    # the triage argument ("order only affects the sequence of independent files") holds only if every effect of the
+    # triaged writers uses the hash container element by element: a value computed from the container as a whole
+    # (an index file listing the keys, a joined string) would carry the iteration order into output bytes
+    for tfp, top in (('libcnb::layer_env::LayerEnv::write_to_layer_dir', wf), ('libcnb::layer::shared::replace_layer_exec_d_programs', rx)):
+        what, pred = TRIAGED_SOURCE[tfp]
+        whole = []
+        for e in E.expand(top, 'may'):
+            if e.kind not in MUTATING:
+                continue
+            for v in ((e.path,) if e.path is not None else ()) + tuple(e.args or ()):
+                if _uses_whole(top, v, pred):
+                    whole.append('%s at %s uses %s as a whole: %s' % (e.kind, e.where(), what, vstr(v)[:100]))
+        rep.check(not whole, 'R2', 'triage-basis/element-wise/' + tfp.split('::')[-1], '%s:%d' % (top.file, top.line),
+                  'every file effect uses %s element by element' % what, 'iteration order of %s can reach output bytes: %s' % (what, whole[:3]))
     # ---- R3 / R4 ---------------------------------------------------------------------------------------
     roots, fns = C12.scope(prog)
     bad = []
